@@ -227,6 +227,15 @@ func (o *Obligation) Script(produceModels bool) string {
 			}
 		case *types.Interface:
 			inv = implies(eq(sx("i_dyn", sel), "T_nil"), eq(sx("i_val", sel), "any_nil"))
+		case *types.Pointer, *types.Map:
+			// entry heap: every stored pointer is nil or points to an object allocated before entry
+			if strings.HasSuffix(hv, "!0") {
+				inv = or(eq(sel, nilLoc), and(sx("<", "0", sx("l_base", sel)), sx("<", sx("l_base", sel), "alloc!0")))
+			}
+		}
+		if sl, ok := t.Underlying().(*types.Slice); ok && strings.HasSuffix(hv, "!0") {
+			_ = sl
+			inv = and(inv, sx("<", sx("s_arr", sel), "alloc!0"))
 		}
 		if inv != "" {
 			fmt.Fprintf(&b, "(assert (forall ((l!t Loc)) (! %s :pattern (%s))))\n", inv, sel)
